@@ -7,7 +7,7 @@ bad=0
 fns=$(awk '{print $1}' EXPECT)
 out=$(KVC_REPO=/verif/selftest/canary KVC_CONTRACTS=repo /verif/bin/kvc verify -t 4 $fns 2>&1)
 while read -r fn want ob; do
-  line=$(echo "$out" | grep -E "^$fn +[0-9]+/[0-9]+ discharged")
+  line=$(echo "$out" | grep -F "$fn " | grep -E "^[^ ]+ +[0-9]+/[0-9]+ discharged")
   a=$(echo "$line" | sed -E 's/.* ([0-9]+)\/([0-9]+) discharged.*/\1/'); b=$(echo "$line" | sed -E 's/.* ([0-9]+)\/([0-9]+) discharged.*/\2/')
   if [ -z "$line" ]; then echo "DIFF  $fn: no result"; bad=1; continue; fi
   if [ "$want" = pass ]; then
